@@ -206,7 +206,7 @@ def _strategy():
 
 
 def run(ctx):
-    ctx.hyp(_strategy, check_case, max_examples=ctx.pick(2000, 60000))
+    ctx.hyp(_strategy, check_case, max_examples=ctx.pick(2000, 100000))
 
 
 def replay(case):
